@@ -170,3 +170,9 @@ mod tests {
         assert_eq!(q.requote(b"/abc/../efg"), None);
     }
 }
+
+#[cfg(kani)]
+#[allow(semicolon_in_expressions_from_non_local_macros, unused)]
+mod verif_kani {
+    include!(concat!(env!("VERIF_HARNESS"), "/actix_router/quoter.rs"));
+}
